@@ -21,6 +21,7 @@ class ModuleInfo:
         self.functions = {}    # top-level def name -> FunctionDef
         self.classes = {}      # class name -> ClassDef
         self.aliases = {}      # top-level  a = b  (Name = Name) bindings, e.g. interp_lin_only = interp_lin_numba
+        self.consts = {}       # top-level  NAME = <literal>
         self.lines = text.splitlines()
         for node in tree.body:
             collect_imports(node, self.imports, modname)
@@ -31,6 +32,11 @@ class ModuleInfo:
             elif isinstance(node, ast.Assign) and len(node.targets) == 1 and isinstance(node.targets[0], ast.Name) \
                     and isinstance(node.value, ast.Name):
                 self.aliases[node.targets[0].id] = node.value.id
+            elif isinstance(node, ast.Assign) and len(node.targets) == 1 and isinstance(node.targets[0], ast.Name):
+                try:
+                    self.consts[node.targets[0].id] = ast.literal_eval(node.value)
+                except (ValueError, SyntaxError, TypeError):
+                    pass
 
 
 def collect_imports(node, table, modname):
